@@ -201,6 +201,27 @@ def corrupt_doc(rng, doc):
     return rng.choice([x for x in JSON_CONFUSION if x != doc])
 
 
+def nested_extra_docs(doc, limit=3):
+    """the document with an undeclared key added inside ONE nested object (every nested object position in
+    turn, at most `limit`): the undeclared-key policy must be applied at every level"""
+    out = []
+
+    def walk(d, rebuild, depth):
+        if len(out) >= limit or not isinstance(d, dict):
+            return
+        if "m" in d:
+            if depth >= 1 and not any(kv[0] == "zz_extra" for kv in d["m"]):
+                out.append(rebuild({"m": [list(kv) for kv in d["m"]] + [["zz_extra", 1]]}))
+            for i, kv in enumerate(d["m"]):
+                walk(kv[1], lambda x, i=i, d=d: rebuild({"m": [list(k2) if j != i else [k2[0], x] for j, k2 in enumerate(d["m"])]}), depth + 1)
+        elif "l" in d:
+            for i, x in enumerate(d["l"]):
+                walk(x, lambda y, i=i, d=d: rebuild({"l": [y if j == i else z for j, z in enumerate(d["l"])]}), depth)
+
+    walk(doc, lambda x: x, 0)
+    return out
+
+
 # ------------------------------------------------------------------ generation
 
 def gen_cases(rng, tier, n_classes, lossy=0.2):
@@ -233,6 +254,11 @@ def gen_cases(rng, tier, n_classes, lossy=0.2):
                 d = dedupe_doc(d)
                 cases.append({"suite": "serde", "mode": "deser", "stream": tag, "cls": cls, "doc": d,
                               "opts": rng.choice(opts_list), "re": gen.re_table(cls, d)})
+            for d in nested_extra_docs(doc):
+                for o in ({"keepUndefined": True, "ignoreInvalidAddl": False}, {"keepUndefined": True, "ignoreInvalidAddl": True},
+                          {"keepUndefined": False, "ignoreInvalidAddl": False}):
+                    cases.append({"suite": "serde", "mode": "deser", "stream": "nested-extra", "cls": cls, "doc": d,
+                                  "opts": o, "re": gen.re_table(cls, d)})
         cases.append({"suite": "serde", "mode": "deser", "stream": "non-object", "cls": cls,
                       "doc": rng.choice([None, 1, "s", {"l": []}, {"l": [{"m": []}]}, True]),
                       "opts": rng.choice(opts_list), "re": []})
